@@ -66,7 +66,12 @@ def doLine (line : String) : String :=
         | none => o
       let f := sortStrs (all.map fun (n, d) => s!"{hexOfStr (resolved n)}:{d.length}:{hashBytes d}")
       let s2 := match second with
-        | some (pre, w) => " S:" ++ "+".intercalate (sortStrs ((pre ++ w.map (fun (nd : String × List UInt8) => nd.1)).map fun n => hexOfStr (resolved n)))
+        | some (pre, w) =>
+          let names := pre ++ w.map (fun (nd : String × List UInt8) => nd.1)
+          -- under the name as reported: what the file at that place holds
+          let held (n : String) : List UInt8 := match all.find? (fun (md : String × List UInt8) => resolved md.1 == resolved n) with | some md => md.2 | none => []
+          " S:" ++ "+".intercalate (sortStrs (names.map fun n => hexOfStr (resolved n))) ++
+          " N:" ++ "+".intercalate (sortStrs (names.map fun n => s!"{hexOfStr n}:{(held n).length}:{hashBytes (held n)}"))
         | none => ""
       s!"R:{"+".intercalate r}{s2} F:{"+".intercalate f} X:0"
     let mobs := if passthrough then "P" else render out
@@ -83,6 +88,11 @@ def doLine (line : String) : String :=
       else if tok o "R:" != tok want "R:" then "C20=FAIL:reported-members-are-not-exactly-the-matching-enclosed-ones"
       else if tok o "S:" != tok want "S:" then "C20=FAIL:second-request-reports-or-extracts-other-than-the-matching-members"
       else if tok o "F:" != tok want "F:" then "C20=FAIL:extracted-content-differs-or-extra-files"
+      else if listing != ["data"] && !((fields (tok o "N:") "+").all fun e => match e.splitOn ":" with
+          | [nh, l, h] => (match written.find? (·.1 == strOfHex nh) with
+              | some (_, d) => toString d.length == l && toString (hashBytes d) == h
+              | none => false)
+          | _ => false) then "C20=FAIL:reported-member-holds-the-content-of-another-member"
       else "C20=ok"
     -- the model of `enclosed_name()` against what the crate said
     let encOk := ms.all fun m => (enclosedName m.name).isSome == m.enclosed.isSome && (m.enclosed.isNone || m.enclosed == some m.name)
